@@ -34,7 +34,8 @@ def _find_sources(with_sources, filtr, limit):
         fifo.append(Cont(with_sources, level))
     else:
         level += 1
-        fifo += [Cont(e, level) for e in with_sources.sources]
+        if level <= limit:
+            fifo += [Cont(e, level) for e in with_sources.sources]
 
     while len(fifo) > 0:
         child = fifo.pop(0)
@@ -63,7 +64,8 @@ def _find_sections(with_sections, filtr, limit):
         fifo.append(Cont(with_sections, level))
     else:
         level += 1
-        fifo += [Cont(e, level) for e in with_sections.sections]
+        if level <= limit:
+            fifo += [Cont(e, level) for e in with_sections.sections]
 
     while len(fifo) > 0:
         child = fifo.pop(0)
